@@ -48,10 +48,18 @@ func coreC19(tier string) []RunSpec {
 	out = append(out, RunSpec{Profile: "core:refused-receives-then-restore", Params: map[string]int{"scenario": 6, "fee": 0}})
 	out = append(out, RunSpec{Profile: "core:spend-all-restore", Params: map[string]int{"scenario": 4, "fee": 0}})
 	out = append(out, RunSpec{Profile: "core:melt-all-restore", Params: map[string]int{"scenario": 4, "melt": 1, "fee": 0}})
+	// the payee of a token is other software: it redeems the (plain) proofs with a witness string
+	// attached, which the mint reports with their SPENT state; then the sender restores from the seed
+	for wi := 0; wi < 3; wi++ {
+		out = append(out, RunSpec{Profile: "core:outside-redeem-then-restore", Params: map[string]int{"scenario": 7, "fee": 0, "wit": wi}})
+	}
 	// known finding: SIG_ALL token from an untrusted mint, swap-to-trusted fails, received again
 	out = append(out, RunSpec{Profile: "core:sigall-crossmint-again", Params: map[string]int{"scenario": 3, "mints": 2, "fee": 0, "fee2": 0}})
 	return out
 }
+
+// witness strings other software may attach to plain inputs
+var c19Witnesses = []string{"", `{"signatures":[]}`, "x"}
 
 func runC19(rc *RunCtx) {
 	T := rc.T
@@ -181,6 +189,29 @@ func runC19(rc *RunCtx) {
 	case 4:
 		c19SpendAllRestore(ww, rc.P("melt", 0) == 1)
 		return
+	case 7:
+		w := ww.Wallets[0]
+		mint := mintNameOfURL(ww.node(w).Mint)
+		ww.step = 0
+		ww.mintInto(w, 100)
+		for i := 0; i < 2; i++ {
+			ww.step++
+			ww.op("w.send fees=false")
+			var ps cashu.Proofs
+			var e error
+			ww.W.WalletOp(w, ww.name("send."+w), nil, func(wl *wallet.Wallet) { ps, e = wl.Send(uint64(1+4*i), ww.mintURL(mint), false) })
+			if e != nil {
+				return
+			}
+			str, _ := MakeToken(ps, ww.mintURL(mint), false, false)
+			ww.Tokens = append(ww.Tokens, &OutToken{Str: str, Proofs: ps, From: w, Mint: mint, Amount: ps.Amount(), Kind: "plain"})
+			ww.StepOutsideRedeem(c19Witnesses[rc.P("wit", 0)])
+			checked = ww.CheckCounters(checked)
+		}
+		ww.Settle()
+		ww.restoreWallet(w, false, "after an outsider redeemed with a witness")
+		rc.Nontrivial = true
+		return
 	case 3:
 		// the 1 sat token cannot be moved across (fees), so the swap-to-trusted receive fails after
 		// its unlocking swap; then the same token is received without swap-to-trusted
@@ -207,6 +238,10 @@ func runC19(rc *RunCtx) {
 	}
 	rc.StepLoop(3, 14, func(i int) {
 		ww.step = i
+		if T.Chance("c19.outside", 1, 8) && ww.StepOutsideRedeem(c19Witnesses[T.Choose("c19.outside.wit", len(c19Witnesses))]) {
+			checked = ww.CheckCounters(checked)
+			return
+		}
 		switch T.Pick("c19.kind", 8, 2, 1, 1) {
 		case 0:
 			ww.Step(T.Pick("step.kind", weights...))
